@@ -127,6 +127,80 @@ def directed(name, quick):
                                 P.add(c, PB.M(q))
                                 cs.append(c)
                             out.append(P.steps)
+    if name == 'subrel':
+        # sub-circuits whose own relation refers to an earlier entry of the parent -- a plain operation or an already nested
+        # sub-circuit (at the start of the parent or behind another operation) -- on qubits nothing else has touched
+        import itertools
+        for rt, lead, target, tail in itertools.product(('FB', 'JS', 'JE'), (False, True), ('sub', 'op', 'both'), (False, True)):
+            P = PB.Prog()
+            m = P.new()
+            head = P.add(m, PB.leaf('Rx180', [0], [[0, 'MICROWAVE']], ['global', 'MW'])) if lead else None
+            s1 = P.new()
+            P.add(s1, PB.leaf('Ry90', [0], [[0, 'MICROWAVE']], ['global', 'MW']))
+            P.add(s1, PB.W(0, 12))
+            h1 = P.add_sub(m, s1)
+            if target in ('sub', 'both'):
+                s2 = P.new(link={'k': 'one', 'ref': h1, 'refs': [], 'rt': rt})
+                P.add(s2, PB.leaf('Rym90', [1], [[1, 'MICROWAVE']], ['global', 'MW']))
+                P.add(s2, PB.W(1, 2))
+                P.add_sub(m, s2)
+            if target in ('op', 'both') and head:
+                s3 = P.new(link={'k': 'one', 'ref': head, 'refs': [], 'rt': rt})
+                P.add(s3, PB.leaf('Ry180', [2], [[2, 'MICROWAVE']], ['global', 'MW']))
+                P.add_sub(m, s3)
+            if tail:
+                P.add(m, PB.M(1))
+            out.append(P.steps)
+    if name == 'nest3':
+        # three levels: the middle block follows an operation of the top circuit (explicitly or by the implicit rule), the
+        # innermost block is the first thing on its own qubit; read zero, one or two times, then flattened / unrolled / left
+        import itertools
+        for explicit, first, obs, end, rep in itertools.product((False, True), (False, True), ((), ('ops',), ('full',), ('ops', 'ops')), (None, 'Flatten', 'Apply'), (1, 2)):
+            if end != 'Apply' and rep != 1:
+                continue
+            P = PB.Prog()
+            top = P.new()
+            a_ = P.add(top, PB.leaf('Rx180', [0], [[0, 'MICROWAVE']], ['global', 'MW']))
+            P.add(top, PB.W(0, 8))
+            inner = P.new(rep=rep)
+            P.add(inner, PB.leaf('Ry90', [1], [[1, 'MICROWAVE']], ['global', 'MW']))
+            mid = P.new(link={'k': 'one', 'ref': a_, 'refs': [], 'rt': 'FB'}) if explicit else P.new()
+            if first:
+                P.add_sub(mid, inner)
+                P.add(mid, PB.W(0, 4))
+            else:
+                P.add(mid, PB.W(0, 4))
+                P.add_sub(mid, inner)
+            P.add_sub(top, mid)
+            for o in obs:
+                P._step(a='Obs', c=top, what=o)
+            if end:
+                P.act(end, top)
+            out.append(P.steps)
+    if name == 'applyalias':
+        # the build goes on after apply_modifiers -- through the handle that was called, the handle that was returned, or both
+        # alternately: a repeated block is added, and modifiers are applied again through either handle
+        import itertools
+        for add_via, apply_via, rep, leaf_first in itertools.product(('old', 'new'), ('old', 'new'), (2, 3), (False, True)):
+            P = PB.Prog()
+            c = P.new()
+            P.add(c, PB.leaf('Rx180', [0], [[0, 'MICROWAVE']], ['global', 'MW']))
+            b0 = P.new(rep=2)
+            P.add(b0, PB.W(0, 4))
+            P.add_sub(c, b0)
+            hnew = P.fresh()
+            P.kids[hnew] = P.kids[c]                 # an alias: same structure
+            P.is_comp.add(hnew)
+            P.act('Apply', c, id=hnew, what='alias')
+            via = {'old': c, 'new': hnew}
+            if leaf_first:
+                P.add(via[add_via], PB.M(0))
+            blk = P.new(rep=rep)
+            P.add(blk, PB.leaf('Ry90', [1], [[1, 'MICROWAVE']], ['global', 'MW']))
+            P.add(blk, PB.leaf('Rym90', [1], [[1, 'MICROWAVE']], ['global', 'MW']))
+            P.add_sub(via[add_via], blk)
+            P.act('Apply', via[apply_via])
+            out.append(P.steps)
     if name == 'durhist':
         # the duration is read, then a registry duration (of a top-level or nested operation) changes without anything being
         # added, and the duration is read again; also read / unroll / read
@@ -302,14 +376,14 @@ def directed(name, quick):
 
 
 SOURCES = {
-    'C01': ('flat', 'nest', 'chan', 'deep', 'unroll2', 'unroll3', 'sim', 'repotests', 'library'),
-    'C02': ('twinblocks', 'flat', 'nest', 'chan', 'deep', 'obsnest', 'sim', 'repotests', 'library'),
+    'C01': ('flat', 'nest', 'chan', 'deep', 'subrel', 'unroll2', 'unroll3', 'sim', 'repotests', 'library'),
+    'C02': ('twinblocks', 'subrel', 'nest3', 'flat', 'nest', 'chan', 'deep', 'obsnest', 'sim', 'repotests', 'library'),
     'C04': ('flat', 'nest', 'nest0', 'durhist', 'sim', 'repotests'),
     'C05': ('kinds', 'copyapplied', 'twinops', 'twinblocks', 'nest', 'mask', 'sim'),
-    'C06': ('unroll', 'unroll2', 'unroll3', 'twinblocks', 'nest', 'sim', 'library'),
+    'C06': ('unroll', 'unroll2', 'unroll3', 'applyalias', 'twinblocks', 'nest', 'sim', 'library'),
     'C07': ('acq', 'acqdir', 'sim'),
     'C11': ('flatten', 'flatdir', 'sim', 'library'),
-    'C03': ('hist', 'plothist', 'acq', 'acqdir', 'twinops', 'twinblocks', 'durhist', 'obsnest', 'sim'),
+    'C03': ('hist', 'plothist', 'acq', 'acqdir', 'twinops', 'twinblocks', 'durhist', 'nest3', 'obsnest', 'sim'),
     'C08': ('kinds', 'export', 'sim', 'library'),
     'C18': ('drawkinds', 'drawhist', 'drawnest'),
     'C15': ('kinds', 'export', 'qldir', 'qlreal'),
@@ -426,7 +500,7 @@ M_Init == /\\ heap = DoNewCircuit(DoAddOp(DoNewCircuit(<<>>, "n1", NoLink, <<"fi
       reps=[('fixed', 2), ('fixed', 3)], acts=('NewCircuit', 'AddOp', 'AddSub', 'Apply'), linktypes=(), max_circs=2, max_objs=8,
       max_steps=6 if quick else 7, workers=8, min_emit=6, timeout=120, cap=1500 if quick else 20000,
       keep=lambda p: p[-1]['a'] == 'Apply' and any(s['a'] == 'AddSub' for s in p))
-    for dn in ('flatdir', 'copyapplied', 'qldir', 'acqdir', 'unroll3', 'twinops', 'twinblocks', 'qlreal', 'durhist'):
+    for dn in ('flatdir', 'copyapplied', 'qldir', 'acqdir', 'unroll3', 'twinops', 'twinblocks', 'qlreal', 'durhist', 'subrel', 'nest3', 'applyalias'):
         if dn in want:
             out.append({'name': dn, 'programs': directed(dn, quick), 'generated': 0, 'tlc_states': 0, 'tlc_generated': 0, 'mode': 'directed family (python)'})
             out[-1]['generated'] = len(out[-1]['programs'])
@@ -825,6 +899,14 @@ def signature(f, ev, trace, prog):
             return 'twin-circuit-registry'
     if cl in ('C05.iso.link', 'C01.eq.FB', 'C01.eq.JS', 'C01.eq.JE') and refers_to_twin(f, trace):
         return 'sibling-twin-blocks-relinked'
+    if cl == 'C04.followers' and ev.get('ev') == 'Obs':
+        # the followed block was placed by a JOINED_END relation handed to its first operations individually: it ends later than
+        # it reports, so its follower starts early -- the same finding seen from behind
+        import re
+        m = re.search(r'"block", "(o\d+)"', f['info'])
+        blk = ev['snap']['comps'].get(m.group(1)) if m else None
+        if blk and blk['rlink']['k'] == 'one' and blk['rlink']['rt'] == 'JE':
+            return 'je-block-handover'
     if cl == 'C01.frame' and ev.get('ev') == 'Obs':
         snap = ev['snap']
         o = snap['leaves'].get(f['obj']) or snap['comps'].get(f['obj'])
